@@ -2,6 +2,7 @@ From Coq Require Import List NArith ZArith Bool Permutation.
 Import ListNotations.
 Require Import MV.C19.Model MV.C19.Spec MV.C19.Exec MV.C19.ProofsKey MV.C19.ProofsSpec MV.C19.ProofsInv
                MV.C19.ProofsClauses MV.C19.ExecProofs.
+Require Import MV.Common.Interleave MV.C19.ConcModel MV.C19.ConcLog MV.C19.ConcInv MV.C19.ConcStep MV.C19.ConcProofs.
 Open Scope N_scope.
 Require Import MV.C19.Properties.
 
@@ -77,3 +78,45 @@ Check (C19_example : run_case ex_history =
                  e_desc := Some [102]; e_val := VC 4 |} ]);
     (true, []) ]).
 Print Assumptions C19_example.
+Check (C19_conc_conservation : forall ps sched t, fst t = Histogram ->
+  let s := fst (final ps sched) in
+  concat (ldrained t (slog s)) ++ resident t (sreg s) = lrecorded t (slog s)).
+Print Assumptions C19_conc_conservation.
+Check (C19_conc_no_invention_no_duplicate : forall ps sched t z, fst t = Histogram ->
+  let s := fst (final ps sched) in
+  (count_occ Z.eq_dec (concat (ldrained t (slog s))) z + count_occ Z.eq_dec (resident t (sreg s)) z
+   = count_occ Z.eq_dec (lrecorded t (slog s)) z)%nat).
+Print Assumptions C19_conc_no_invention_no_duplicate.
+Check (C19_conc_drain_shows_since_previous : forall ps sched l1 t vs l2,
+  slog (fst (final ps sched)) = l1 ++ LDrain t vs :: l2 ->
+  fst t = Histogram /\ vs = lrecorded t (since_last_drain t l1)).
+Print Assumptions C19_conc_drain_shows_since_previous.
+Check (C19_conc_load_is_fold : forall ps sched l1 t v l2,
+  slog (fst (final ps sched)) = l1 ++ LLoad t v :: l2 ->
+  fst t <> Histogram /\
+  v = match fst t with
+      | Counter => VC (fold_left capply (lupds t l1) 0)
+      | Gauge => VG (fold_left gapply (lupds t l1) 0%Z)
+      | Histogram => v
+      end).
+Print Assumptions C19_conc_load_is_fold.
+Check (C19_conc_entries_are_steps : forall ps sched l r e,
+  In l (snd (final ps sched)) -> In r (outs l) -> In e (sr_out r) ->
+  entry_logged (slog (fst (final ps sched))) e).
+Print Assumptions C19_conc_entries_are_steps.
+Check (C19_conc_listing : forall ps sched l r,
+  In l (snd (final ps sched)) -> In r (outs l) ->
+  let s := fst (final ps sched) in
+  Prefix (sr_lp r) (slog s) /\
+  (forall t, In (LGoc t) (sr_lp r) -> existsb (fun y => teqb t y) (map fst (sr_out r)) = true) /\
+  ForallOrdPairs (fun a b => teqb a b = false) (map fst (sr_out r)) /\
+  Subseq (map fst (sr_out r)) (keep_first [] (tracked (slog s)))).
+Print Assumptions C19_conc_listing.
+Check (C19_conc_seen_is_first_registration_order : forall ps sched,
+  sseen (fst (final ps sched)) = keep_first [] (tracked (slog (fst (final ps sched))))).
+Print Assumptions C19_conc_seen_is_first_registration_order.
+Check (C19_conc_example : map sr_out (outs (nth 2 (snd (final ex_progs ex_sched)) (init_local [])))
+  = [ [(exk_h 0, VH [1; 3; 2]%Z)]; [(exk_h 0, VH [4]%Z)] ] /\
+  sreg (fst (final ex_progs ex_sched)) = [(exk_h 1, SH []); (exk_c, SC 5)] /\
+  sseen (fst (final ex_progs ex_sched)) = [exk_h 0; exk_c]).
+Print Assumptions C19_conc_example.
